@@ -8,21 +8,10 @@ namespace Evp.Conc
 
 /-! ### per-thread facts -/
 
-theorem keepPred_false {m e : Nat} (h : m ≤ 1) : keepPred m e = false := by
-  unfold keepPred
-  have h2 : m ≠ 2 := by omega
-  have h3 : m ≠ 3 := by omega
-  simp [h2, h3]
-
 theorem waitsFollowed_tail {p : List Call} (h : waitsFollowed p = true) : waitsFollowed p.tail = true := by
   cases p with
   | nil => exact h
   | cons c r => cases c <;> simp_all [waitsFollowed]
-
-theorem noProcessIf_tail {p : List Call} (h : noProcessIf p = true) : noProcessIf p.tail = true := by
-  cases p with
-  | nil => exact h
-  | cons c r => cases c <;> simp_all [noProcessIf]
 
 theorem after_wait {p : List Call} (h : waitsFollowed p = true) (hw : headIsWait p = true) :
     headIsProcess p.tail = true := by
@@ -34,14 +23,14 @@ theorem thOK_finish {th th' : Thread} (h : thOKW th = true) (hpc : th'.pc = .idl
     (hprog : th'.prog = th.prog.tail) : thOKW th' = true := by
   simp only [thOKW, Bool.and_eq_true] at h ⊢
   rw [hpc, hprog]
-  exact ⟨⟨⟨waitsFollowed_tail h.1.1.1, noProcessIf_tail h.1.1.2⟩, rfl⟩, rfl⟩
+  exact ⟨waitsFollowed_tail h.1, rfl⟩
 
 theorem thOK_goto {th th' : Thread} (h : thOKW th = true) (hprog : th'.prog = th.prog)
-    (hm : pcModeOK th'.pc = true) (hw : isWaitPc th'.pc = true → headIsWait th.prog = true) :
+    (hw : isWaitPc th'.pc = true → headIsWait th.prog = true) :
     thOKW th' = true := by
   simp only [thOKW, Bool.and_eq_true] at h ⊢
   rw [hprog]
-  refine ⟨⟨⟨h.1.1.1, h.1.1.2⟩, hm⟩, ?_⟩
+  refine ⟨h.1, ?_⟩
   cases hh : isWaitPc th'.pc with
   | false => rfl
   | true => simp [hw hh]
@@ -52,10 +41,6 @@ theorem thOK_wait {th : Thread} (h : thOKW th = true) (hw : isWaitPc th.pc = tru
   have := h.2
   rw [hw] at this
   simpa using this
-
-theorem thOK_mode {th : Thread} (h : thOKW th = true) : pcModeOK th.pc = true := by
-  simp only [thOKW, Bool.and_eq_true] at h
-  exact h.1.2
 
 theorem locOK_intro {q : List Nat} {nc : Nat} {qm : Option Tid} {t : Tid} {th : Thread}
     (h1 : qm = some t) (h2 : ∀ a b, th.pc = .waitRead2 a b → q = [])
@@ -81,8 +66,8 @@ theorem J_init {progs : List (List Call)} (hwf : WF progs) : J (init progs true)
   refine ⟨⟨rfl, ?_, ?_⟩, ?_⟩
   · intro t th hg
     obtain ⟨p, hp, rfl⟩ := getT_init hg
-    obtain ⟨h1, _, h3⟩ := hwf p hp
-    simp [thOKW, h1, h3, pcModeOK, isWaitPc]
+    obtain ⟨h1, _⟩ := hwf p hp
+    simp [thOKW, h1, isWaitPc]
   · intro t th hg
     obtain ⟨p, hp, rfl⟩ := getT_init hg
     exact locOK_of_not_holds rfl
@@ -105,7 +90,7 @@ set_option hygiene false
 
 local macro "jset" : tactic => `(tactic| refine J_setT hJ hg _ _ rfl rfl ?_ ?_ ?_ ?_)
 local macro "thgoto" : tactic =>
-  `(tactic| exact thOK_goto hth rfl (by simp_all [pcModeOK]) (by first | (intro hh; cases hh; done) | (intro _; exact thOK_wait hth (by rw [hpc]; rfl))))
+  `(tactic| exact thOK_goto hth rfl (by first | (intro hh; cases hh; done) | (intro _; exact thOK_wait hth (by rw [hpc]; rfl))))
 local macro "thfin" : tactic => `(tactic| exact thOK_finish hth rfl rfl)
 local macro "noloc" : tactic => `(tactic| exact locOK_of_not_holds rfl)
 local macro "same" : tactic => `(tactic| exact Or.inl ⟨rfl, rfl, id⟩)
@@ -126,8 +111,6 @@ theorem pres_idle (hJ : J s) (hg : getT s t = some th) (hpc : th.pc = .idle)
   | nil => simp [step, hg, hpc, hprog] at h
   | cons c r =>
     cases c with
-    | processIf k =>
-      simp [thOKW, hprog, noProcessIf] at hth
     | process =>
       simp [step, hg, hpc, hprog] at h; cases h
       jset
@@ -151,14 +134,14 @@ theorem pres_idle (hJ : J s) (hg : getT s t = some th) (hpc : th.pc = .idle)
     | wait =>
       simp [step, hg, hpc, hprog] at h; cases h
       jset
-      · exact thOK_goto hth rfl rfl (by intro _; rw [hprog]; rfl)
+      · exact thOK_goto hth rfl (by intro _; rw [hprog]; rfl)
       · noloc
       · same
       · right; right; refine ⟨id, ?_, ?_⟩ <;> simp [holder, hpc, hprog, headIsProcess, isParked]
     | waitFor =>
       simp [step, hg, hpc, hprog] at h; cases h
       jset
-      · exact thOK_goto hth rfl rfl (by intro _; rw [hprog]; rfl)
+      · exact thOK_goto hth rfl (by intro _; rw [hprog]; rfl)
       · noloc
       · same
       · right; right; refine ⟨id, ?_, ?_⟩ <;> simp [holder, hpc, hprog, headIsProcess, isParked]
@@ -229,15 +212,13 @@ theorem pres_enqNotify (hJ : J s) (hg : getT s t = some th) (hpc : th.pc = .enqN
     (h : step s t ch = some s') : J s' := by
   start
   cases h
-  exact J_notify hJ hg (by simp [isParked, hpc]) ch _ (thOK_finish hth rfl rfl) rfl
+  exact J_notify hJ hg (by simp [isParked, hpc]) ch _ (thOK_finish hth rfl rfl) rfl rfl
 
 /-! processing calls -/
 
 theorem pres_procPre {m : Nat} (hJ : J s) (hg : getT s t = some th) (hpc : th.pc = .procPre m)
     (h : step s t ch = some s') : J s' := by
   start
-  have hm := thOK_mode hth
-  simp [hpc, pcModeOK] at hm
   split at h <;> cases h
   · jset
     · thfin
@@ -253,8 +234,6 @@ theorem pres_procPre {m : Nat} (hJ : J s) (hg : getT s t = some th) (hpc : th.pc
 theorem pres_procInc {m : Nat} (hJ : J s) (hg : getT s t = some th) (hpc : th.pc = .procInc m)
     (h : step s t ch = some s') : J s' := by
   start
-  have hm := thOK_mode hth
-  simp [hpc, pcModeOK] at hm
   cases h
   jset
   · thgoto
@@ -265,8 +244,6 @@ theorem pres_procInc {m : Nat} (hJ : J s) (hg : getT s t = some th) (hpc : th.pc
 theorem pres_procTake {m : Nat} (hJ : J s) (hg : getT s t = some th) (hpc : th.pc = .procTake m)
     (h : step s t ch = some s') : J s' := by
   start
-  have hm := thOK_mode hth
-  simp [hpc, pcModeOK] at hm
   obtain ⟨hq, h⟩ := h
   split at h
   · -- processOne
@@ -303,34 +280,70 @@ theorem pres_procLoop {m : Nat} {todo kept : List Nat} {any : Bool} (hJ : J s)
     (hg : getT s t = some th) (hpc : th.pc = .procLoop m todo kept any)
     (h : step s t ch = some s') : J s' := by
   have hth := hJ.base.th t th hg
-  have hm := thOK_mode hth
-  simp [hpc, pcModeOK] at hm
-  obtain ⟨hm, hk⟩ := hm
-  subst hk
   cases todo with
   | nil =>
-    simp [step, hg, hpc] at h
-    cases h
-    jset
-    · thgoto
-    · noloc
-    · same
-    · kf
+    simp only [step, hg, hpc] at h
+    split at h <;> cases h
+    · jset
+      · thgoto
+      · noloc
+      · same
+      · kf
+    · jset
+      · thgoto
+      · noloc
+      · same
+      · kf
   | cons e r =>
-    simp [step, hg, hpc, keepPred_false hm] at h
-    cases h
-    jset
-    · thgoto
-    · noloc
-    · same
-    · kf
+    simp only [step, hg, hpc] at h
+    split at h <;> cases h
+    · jset
+      · thgoto
+      · noloc
+      · same
+      · kf
+    · jset
+      · thgoto
+      · noloc
+      · same
+      · kf
 
+/-- the put-back of `processIf`: under the mutex (so no waiter is between its predicate evaluation
+    and its parking); the list becomes non-empty and the thread becomes the obligation holder -/
 theorem pres_procPutBack {kept : List Nat} {any : Bool} (hJ : J s)
     (hg : getT s t = some th) (hpc : th.pc = .procPutBack kept any)
-    (_h : step s t ch = some s') : J s' := by
-  have hth := hJ.base.th t th hg
-  have hm := thOK_mode hth
-  simp [hpc, pcModeOK] at hm
+    (h : step s t ch = some s') : J s' := by
+  start
+  obtain ⟨hq, rfl⟩ := h
+  jset
+  · thgoto
+  · noloc
+  · exact Or.inr (Or.inl hq)
+  · kh
+
+/-- `if(doCanNotifyQueueAvailable())` after the put-back: the obligation is passed on to
+    `procPbNotify`, or dropped because `nc ≠ 0` (the condition is false now; whoever decrements `nc`
+    to 0 becomes a holder at `dqnDec`) -/
+theorem pres_procPbReadNc {any : Bool} (hJ : J s) (hg : getT s t = some th)
+    (hpc : th.pc = .procPbReadNc any) (h : step s t ch = some s') : J s' := by
+  start
+  split at h <;> cases h
+  · jset
+    · thgoto
+    · noloc
+    · same
+    · kh
+  · jset
+    · thgoto
+    · noloc
+    · same
+    · kn
+
+theorem pres_procPbNotify {any : Bool} (hJ : J s) (hg : getT s t = some th)
+    (hpc : th.pc = .procPbNotify any) (h : step s t ch = some s') : J s' := by
+  start
+  cases h
+  exact J_notify hJ hg (by simp [isParked, hpc]) ch _ (thOK_goto hth rfl (by intro hh; cases hh)) rfl rfl
 
 theorem pres_procDec {res : Bool} (hJ : J s) (hg : getT s t = some th) (hpc : th.pc = .procDec res)
     (h : step s t ch = some s') : J s' := by
@@ -549,7 +562,7 @@ theorem pres_waitRead3 {timed ato ne : Bool} (hJ : J s) (hg : getT s t = some th
   have hth := hJ.base.th t th hg
   have hw : headIsWait th.prog = true := thOK_wait hth (by rw [hpc]; rfl)
   have hwf : waitsFollowed th.prog = true := by
-    simp only [thOKW, Bool.and_eq_true] at hth; exact hth.1.1.1
+    simp only [thOKW, Bool.and_eq_true] at hth; exact hth.1
   simp only [step, hg, hpc] at h
   split at h
   · cases h
@@ -663,7 +676,7 @@ theorem pres_dqnNotify (hJ : J s) (hg : getT s t = some th) (hpc : th.pc = .dqnN
     (h : step s t ch = some s') : J s' := by
   start
   cases h
-  exact J_notify hJ hg (by simp [isParked, hpc]) ch _ (thOK_finish hth rfl rfl) rfl
+  exact J_notify hJ hg (by simp [isParked, hpc]) ch _ (thOK_finish hth rfl rfl) rfl rfl
 
 /-- every micro-step preserves the invariant -/
 theorem J_step (hJ : J s) (h : step s t ch = some s') : J s' := by
@@ -682,6 +695,8 @@ theorem J_step (hJ : J s) (h : step s t ch = some s') : J s' := by
     | procTake m => exact pres_procTake hJ hg hpc h
     | procLoop m todo kept any => exact pres_procLoop hJ hg hpc h
     | procPutBack kept any => exact pres_procPutBack hJ hg hpc h
+    | procPbReadNc any => exact pres_procPbReadNc hJ hg hpc h
+    | procPbNotify any => exact pres_procPbNotify hJ hg hpc h
     | procDec res => exact pres_procDec hJ hg hpc h
     | takePre => exact pres_takePre hJ hg hpc h
     | takeLocked => exact pres_takeLocked hJ hg hpc h
